@@ -364,8 +364,11 @@ func VxCollectRevoked() {
 			continue
 		}
 		ri := revocationInfo{CertificateBytes: r.c.Raw, RevocationTime: 9, RevocationTimeUTC: time.Unix(9, 0)}
-		if vxBool("record names its issuer: " + r.key) {
+		switch vxChoose("issuer recorded on "+r.key+"(none,right,stale id of a deleted issuer)", 3) {
+		case 1:
 			ri.CertificateIssuer = r.issuer
+		case 2:
+			ri.CertificateIssuer = "issuer-deleted"
 		}
 		st.Put(sc.Context, &logical.StorageEntry{Key: "revoked/" + r.key, Value: vxBox(ri)})
 	}
@@ -393,6 +396,11 @@ func VxCollectRevoked() {
 			vxAssert("an issuer's own certificate is left to the issuer-revocation path", total(r.c) == 0)
 		case r.issuer != "":
 			vxAssert("a revoked leaf is collected exactly once, under its issuer", total(r.c) == 1 && count(r.c, by[r.issuer]) == 1)
+			// OCSP and the status API trust the issuer id persisted on the record: after a build it names the
+			// issuer that really signed the certificate (also when it named a since-deleted issuer before)
+			var stored revocationInfo
+			vxAssert("record readable", vxUnbox(st.vals[st.find("revoked/"+r.key)], &stored))
+			vxAssert("after a CRL build the record names the certificate's present issuer", stored.CertificateIssuer == r.issuer)
 		default:
 			vxAssert("a revoked leaf without a known issuer is collected exactly once, unassigned", total(r.c) == 1 && count(r.c, un) == 1)
 		}
